@@ -2,6 +2,7 @@ let () =
   match Array.to_list Sys.argv with
   | _ :: "codec" :: file :: _ -> Codec_driver.main file
   | _ :: "sys" :: file :: props -> Sys_driver.main file props
+  | _ :: "reporters" :: file :: _ -> Reporters_driver.main file
   | _ :: "jaeger" :: file :: prop :: _ -> Jaeger_driver.main file prop
   | _ :: "jaeger" :: file :: _ -> Jaeger_driver.main file "C19"
   | _ -> prerr_endline "usage: driver codec <cases> | sys <log> [props...]"; exit 2
